@@ -44,6 +44,21 @@ def main(argv):
         spec.check(ctx)
         if tier == "thorough" and hasattr(spec, "thorough"):
             spec.thorough(ctx)
+        if tier == "thorough" and not replay:
+            from sa import twins
+
+            files = []
+            with open(os.path.join(harness.VERIF, "properties.jsonl")) as fh:
+                for line in fh:
+                    p = json.loads(line)
+                    if p["id"] == prop:
+                        files = [f[len("src/skmatter/"):] for f in p["anchors"]["files"] if f.startswith("src/skmatter/")]
+            limit = int(os.environ.get("VERIF_TWINS_PER_FILE", "40" if prop in ("C09", "C13") else "80"))
+            res = twins.battery(prop, files, ctx.P.root, limit_per_file=limit)
+            ctx.extra_coverage = {"twins": res}
+            print(f"[{prop}] twin battery: {res['broken_total']} broken twins -> {res['broken_killed']} reported as VIOLATION, {res['broken_analysis_error']} as ANALYSIS-ERROR, {res['broken_survived']} silent (equivalent or outside the claimed clauses); {res['benign_total']} benign twins -> {len(res['benign_false_alarms'])} false alarms")
+            for fa in res["benign_false_alarms"]:
+                ctx.error("TWIN-BENIGN", f"{fa['file']}: {fa['twin']}", f"behaviour-preserving twin made the check report {fa['verdict']}: {fa['keys']}", fa["file"])
         if replay:
             with open(replay) as fh:
                 r = json.load(fh)
